@@ -13,7 +13,7 @@ RULE = ("a seeded base run (flavour, in 30% of runs 1-4 objects already present 
         "then for EVERY k in 1..Ns the identical plan is re-executed with the process dying immediately before storage write k, and for EVERY k in 1..Np immediately after provider "
         "write k (SimCrash derives from BaseException, in-memory engine dropped, providers' volatile session state reset, storage dict and provider contents at that instant are the "
         "durable state); a new engine is started, the remaining user operations of the plan are applied (variant 'resume') or not (variant 'halt'), and it is run to quiet. Oracles: "
-        "convergence, no user content lost, and for one-sided histories exact mirror without .conflicted. evaluations = crash runs (base runs not counted); distinct = (history shape, "
+        "at the instant of death, on the durable state: an object id that entered a row together with last-synced markers during the dying step is held by the provider with the recorded hash, and (stable-id sides) an object newly recorded as deleted is gone; after the restart: convergence, no user content lost, and for one-sided histories exact mirror without .conflicted. evaluations = crash runs (base runs not counted); distinct = (history shape, "
         "schedule, flavour, crash kind, engine call site of the crashing write); non-trivial = the crash hit while >=1 entry was pending or mid-transfer (the crashing step had issued a write).")
 ASSUMPTIONS = ["fault model as stated by the property: death before a storage write or after a provider write; storage writes are atomic and durable once made (torn/lost writes are outside the statement)",
                "MockProvider contents at the crash instant are what the cloud holds", "every run starts with one loop of each service on the (still empty) roots, so each side's first cursor exists before users act: a deletion made before the engine ever obtained a cursor for that account is not knowable from a walk and is outside the statement (the crash points inside those first loops are still enumerated)",
